@@ -317,3 +317,62 @@ Definition whole_okb (f : dfunc) : bool :=
   vm_okb V f && tr_okb V f &&
   forallb (fun b => term_okb condbr_same_block_special_case kf (k_term b)) kf &&
   order_okb (List.length f) (block_order f).
+
+(* ---------- the machine on conv_func's literal output (list iblock) ---------- *)
+Definition idflt : iblock := mkIB [] [] IUnreachable.
+Definition lit_phi_vals (b : iblock) (pred : Z) (e : cenv) : option (list Z) :=
+  opt_map (fun ph => phi_eval cenv i_eval (snd ph) pred e) (i_phis b).
+Definition lit_enter (bs : list iblock) (d : Z) (vals : list Z) (e : cenv) : cenv :=
+  combine (map (fun ph => fst (fst ph)) (i_phis (nth (Z.to_nat d) bs idflt))) vals ++ e.
+Fixpoint run_lit (bs : list iblock) (fuel : nat) (cur : nat) (e : cenv) : wout :=
+  match fuel with
+  | O => WFuel
+  | S n =>
+    match nth_error bs cur with
+    | None => WStuck
+    | Some b =>
+      match exec_body_i e (i_body b) with
+      | StuckS => WStuck
+      | Poison => WPoison
+      | Next e1 =>
+        match i_term b with
+        | IRet _ v => match i_eval e1 v with Some x => WRet x | None => WStuck end
+        | IRetVoid | IUnreachable => WHalt
+        | IBr d =>
+            match lit_phi_vals (nth (Z.to_nat d) bs idflt) (Z.of_nat cur) e1 with
+            | Some vs => run_lit bs n (Z.to_nat d) (lit_enter bs d vs e1)
+            | None => WStuck
+            end
+        | ICondBr c tb eb =>
+            match i_eval e1 c with
+            | None => WStuck
+            | Some cv =>
+                let d := if Z.odd cv then tb else eb in
+                match lit_phi_vals (nth (Z.to_nat d) bs idflt) (Z.of_nat cur) e1 with
+                | Some vs => run_lit bs n (Z.to_nat d) (lit_enter bs d vs e1)
+                | None => WStuck
+                end
+            end
+        end
+      end
+    end
+  end.
+
+(* conv_func's output IS the block-wise translation (no select had to be materialised): same instruction lists, same
+   terminators, the phis of block i are the entries (i, 0), (i, 1), ... of the kernel's table; the entry block has none *)
+Definition term_matchesP (k : kterm) (t : iterm) : Prop :=
+  match k, t with
+  | KRet a, IRet _ b => a = b
+  | KStop, IRetVoid | KStop, IUnreachable => True
+  | KBr d _, IBr d' => d = d'
+  | KCondBr c tb _ eb _, ICondBr c' tb' eb' => c = c' /\ tb = tb' /\ eb = eb'
+  | _, _ => False
+  end.
+Definition lit_matches (bs : list iblock) (T : tprog) : Prop :=
+  List.length bs = List.length (t_k T) /\
+  forall i b, nth_error bs i = Some b ->
+    i_body b = nth i (t_bodies T) [] /\
+    term_matchesP (k_term (nth i (t_k T) kdflt)) (i_term b) /\
+    (i <> O -> map (fun ph => fst (fst ph)) (i_phis b) = k_args (nth i (t_k T) kdflt) /\
+               map snd (i_phis b) =
+               map (fun k => pt_get (t_pt T) (Z.of_nat i) (Z.of_nat k)) (seq 0 (List.length (i_phis b)))).
